@@ -11,11 +11,11 @@ for n in args:
     d = f"/verif/seeded/{n}"
     r = subprocess.run(["/verif/tools/run_seeded.sh", prop, d], capture_output=True, text=True).stdout
     det = "NOT DETECTED (quick tier exit 0)"
-    rp = f"/root/seedrun/verif/replays/{prop}-20260925-quick.json"
+    rp = os.environ.get("SEEDRUN", "/root/seedrun") + f"/verif/replays/{prop}-20260925-quick.json"
     if "VIOLATION" in r and os.path.exists(rp):
         dd = json.load(open(rp))
         cs = dd.get("cases", [])[:2]
-        det = "quick tier exit 1: " + [l for l in r.splitlines() if "VIOLATION" in l][0].replace("/root/seedrun/verif/replays/", "replays/") + \
+        det = "quick tier exit 1: " + [l for l in r.splitlines() if "VIOLATION" in l][0].replace(os.environ.get("SEEDRUN", "/root/seedrun") + "/verif/replays/", "replays/") + \
               " ; " + " | ".join(f"{c['kind']} {c.get('signature','')} on '{c['case'][:160]}' ({c['occurrences']} cases)" for c in cs) + \
               (" ; broken: " + ",".join(b["what"] for b in dd.get("broken_obligations", [])) if dd.get("broken_obligations") else "")
     p = d + "/meta.json"
